@@ -337,6 +337,8 @@ fn one_case(c: &mut Ctx, fam: &str, idx: u64, threads: bool) {
     };
     let log: Arc<Mutex<Vec<Seen>>> = Arc::new(Mutex::new(vec![]));
     let log2 = log.clone();
+    let lazy = Arc::new(std::sync::atomic::AtomicU64::new(0));
+    let lazy2 = lazy.clone();
     let names2 = Arc::new(names.clone());
     let plan2 = Arc::new(plan.clone());
     let mut rng2 = rng.fork();
@@ -404,8 +406,19 @@ fn one_case(c: &mut Ctx, fam: &str, idx: u64, threads: bool) {
                 }
                 let q = Query { name: rng2.below(nnames), qtype: *rng2.pick(&[T_A, T_A, T_TXT]), rd: rng2.bool(), cd: rng2.chance(1, 4), ad: rng2.chance(1, 3), dnssec_ok: rng2.chance(1, 3), case_flip: rng2.chance(1, 5) };
                 let before = log2.lock().unwrap().len();
-                let at = start.elapsed().as_millis() as u64;
                 let mut gr = conn.send_request(mk_query(&q, &names2, rng2.u16()));
+                // a request object made now and asked for its response later (a batch made first and collected afterwards):
+                // what counts is the moment the response is handed out
+                if rng2.chance(1, 5) {
+                    let wait = match rng2.below(4) {
+                        0 => rng2.range(1, 999) as u64,
+                        1 => 1000 * *rng2.pick(&[1u64, 2, 5, 30, 60, 61, 300]),
+                        _ => rng2.range(1000, 90_000) as u64,
+                    };
+                    tokio::time::advance(Duration::from_millis(wait)).await;
+                    lazy2.fetch_add(1, std::sync::atomic::Ordering::Relaxed);
+                }
+                let at = start.elapsed().as_millis() as u64;
                 let r = gr.get_response().await;
                 let after = log2.lock().unwrap().len();
                 rows.push((q, at, before, after, r.map(|m| m.as_slice().to_vec()).map_err(|e| format!("{}", e)), at));
@@ -422,6 +435,7 @@ fn one_case(c: &mut Ctx, fam: &str, idx: u64, threads: bool) {
         }
     };
     let log = log.lock().unwrap().clone();
+    c.count("responses_collected_some_time_after_the_request_was_made", lazy.load(std::sync::atomic::Ordering::Relaxed));
     let mut last_failure: Vec<Option<u64>> = vec![None; nnames];
     for (qi, (q, at, before, after, result, done)) in rows.iter().enumerate() {
         let rp = |c: &Ctx, more: serde_json::Value| c.replay_of(fam, idx, json!({"ctx": ex, "query": qi, "more": more}));
